@@ -593,6 +593,9 @@ fn analyze_match_tuple_pattern(
     // Find matching tuple types
     let matching_types = find_matching_match_tuples(program, tuple, value_type_id)?;
 
+    // Identifiers first bound inside the variants (each variant works on its own copy).
+    let mut bound_in_variants: Vec<HashMap<String, Identifier>> = Vec::new();
+
     // For each matching type, create binding sets
     for (tuple_id, field_mappings) in &matching_types {
         // Clone identifiers only if there are multiple variants to avoid cross-contamination
@@ -739,6 +742,26 @@ fn analyze_match_tuple_pattern(
             let narrowed_tuple_id = program.register_tuple(tuple_name, narrowed_fields);
             successful_tuple_ids.push(program.register_type(Type::Tuple(narrowed_tuple_id)));
             binding_sets.extend(current_binding_sets);
+            if let IdentifierScope::Owned(bound) = variant_identifiers_scope {
+                bound_in_variants.push(bound);
+            }
+        }
+    }
+
+    // A name first bound inside the variants is bound for the rest of the enclosing pattern
+    // too: a later occurrence (`=[A[h], h]` over a field of type A['int] | A['bin]) is a
+    // repeated binder and must be compared with the first one, not bound afresh. Every variant
+    // that can match binds it at the same path here, so one entry serves them all.
+    for bound in &bound_in_variants {
+        for (name, identifier) in bound {
+            let bound_everywhere_at_this_path = bound_in_variants.iter().all(|other| {
+                other
+                    .get(name)
+                    .is_some_and(|o| o.first_path == identifier.first_path)
+            });
+            if bound_everywhere_at_this_path && !identifiers.contains_key(name) {
+                identifiers.insert(name.clone(), identifier.clone());
+            }
         }
     }
 
